@@ -1218,6 +1218,188 @@ fn report(class: &str, cap: Option<usize>, actor: bool, choices: &[usize], e: &(
     }
 }
 
+/// the buffer of a bounded channel is allocated up front: keep it below 64 MiB for sized payloads
+fn clamp_cap<T>(cap: Option<usize>) -> Option<usize> {
+    let sz = std::mem::size_of::<T>();
+    match cap {
+        Some(c) if sz > 0 && c > 4096 => {
+            let lim = (64usize << 20) / sz;
+            Some(if c > lim { lim - (c % 7) } else { c })
+        }
+        c => c,
+    }
+}
+
+/// Single-threaded differential on a large bounded channel with a plain payload: the buffer takes exactly `cap`
+/// values, refuses the next one, stays FIFO across the ring wrap-around, and drains completely.
+fn big_fill<T: Copy + PartialEq + std::fmt::Debug + Send + 'static>(cap: usize, async_ctor: bool, mk: impl Fn(usize) -> T, stats: &mut (u64, u64)) -> Result<(), String> {
+    let (s, r) = if async_ctor {
+        let (s, r) = kanal::bounded_async::<T>(cap);
+        (s.to_sync(), r.to_sync())
+    } else {
+        kanal::bounded::<T>(cap)
+    };
+    stats.0 += 1;
+    if let Ok(mut l) = CUR_CALL.lock() {
+        *l = (0, format!("fill bounded({})", cap));
+    }
+    macro_rules! want {
+        ($what:expr, $got:expr, $exp:expr) => {{
+            let g = $got;
+            let e = $exp;
+            if g != e {
+                return Err(format!("{}: returned {:?}, reference {:?}", $what, g, e));
+            }
+        }};
+    }
+    want!("capacity()", s.capacity(), cap);
+    want!("receiver capacity()", r.capacity(), cap);
+    want!("is_bounded()", s.is_bounded(), true);
+    // phase 1: leave the ring's head in the middle so that the fill wraps around
+    let pre = cap / 3;
+    for k in 0..pre {
+        want!(format!("try_send #{} holding {} values", k, k), s.try_send(mk(k)).map_err(|e| format!("{:?}", e)), Ok(true));
+    }
+    for k in 0..pre {
+        want!(format!("try_recv #{}", k), r.try_recv().map_err(|e| format!("{:?}", e)), Ok(Some(mk(k))));
+    }
+    want!("len() after emptying", s.len(), 0);
+    // phase 2: to the brim
+    for k in 0..cap {
+        if k & 0xfff == 0 {
+            BEAT.fetch_add(1, std::sync::atomic::Ordering::Relaxed);
+        }
+        if k & (k.wrapping_sub(1)) == 0 {
+            want!(format!("len() holding {} values", k), r.len(), k);
+            want!(format!("is_full() holding {} of {} values", k, cap), s.is_full(), false);
+        }
+        want!(format!("try_send #{} holding {} of {} values (Ok(false) = refused)", k, k, cap), s.try_send(mk(k)).map_err(|e| format!("{:?}", e)), Ok(true));
+    }
+    stats.1 += (cap + pre) as u64;
+    want!("len() when full", s.len(), cap);
+    want!("is_full() when full", r.is_full(), true);
+    want!("try_send on the full buffer", s.try_send(mk(cap)).map_err(|e| format!("{:?}", e)), Ok(false));
+    want!("try_send_realtime on the full buffer", s.try_send_realtime(mk(cap)).map_err(|e| format!("{:?}", e)), Ok(false));
+    want!("send_timeout(0) on the full buffer", s.send_timeout(mk(cap), std::time::Duration::ZERO).map_err(|e| format!("{:?}", e)), Err("Timeout".to_string()));
+    want!("len() after refused sends", s.len(), cap);
+    // one place freed, one value admitted
+    want!("try_recv on the full buffer", r.try_recv().map_err(|e| format!("{:?}", e)), Ok(Some(mk(0))));
+    want!("is_full() after one receive", r.is_full(), false);
+    want!("try_send into the freed place", s.try_send(mk(cap)).map_err(|e| format!("{:?}", e)), Ok(true));
+    want!("try_send on the refilled buffer", s.try_send(mk(cap + 1)).map_err(|e| format!("{:?}", e)), Ok(false));
+    let mut v: Vec<T> = Vec::new();
+    want!("drain_into count", r.drain_into(&mut v).map_err(|e| format!("{:?}", e)), Ok(cap));
+    for (i, x) in v.iter().enumerate() {
+        if *x != mk(i + 1) {
+            return Err(format!("drain_into: position {} holds {:?}, reference {:?}", i, x, mk(i + 1)));
+        }
+    }
+    want!("len() after drain", s.len(), 0);
+    want!("try_recv after drain", r.try_recv().map_err(|e| format!("{:?}", e)), Ok(None));
+    BEAT.fetch_add(1, std::sync::atomic::Ordering::Relaxed);
+    Ok(())
+}
+
+/// Single-threaded differential on the handle counters with very many live handles of one side (all flavours):
+/// after every step near a power of two the count equals the number of live handles, the other side sees no
+/// disconnect, and the count comes back down to one as they are dropped.
+fn many_handles(n: usize, senders: bool, stats: &mut (u64, u64)) -> Result<(), String> {
+    enum H {
+        S(#[allow(dead_code)] kanal::Sender<u16>),
+        AS(#[allow(dead_code)] kanal::AsyncSender<u16>),
+        R(#[allow(dead_code)] kanal::Receiver<u16>),
+        AR(#[allow(dead_code)] kanal::AsyncReceiver<u16>),
+    }
+    let (s, r) = kanal::bounded::<u16>(2);
+    let (a_s, a_r) = (s.clone_async(), r.clone_async());
+    let mut live: Vec<Option<H>> = Vec::with_capacity(n);
+    let count = |senders: bool| if senders { r.sender_count() as u64 } else { s.receiver_count() as u64 };
+    let near_pow2 = |k: usize| (0..3).any(|d| (k + d).is_power_of_two() || (k >= d && (k - d).is_power_of_two()));
+    if let Ok(mut l) = CUR_CALL.lock() {
+        *l = (0, format!("many_handles n={} senders={}", n, senders));
+    }
+    let base = 2u64; // s + a_s (or r + a_r)
+    for k in 0..n {
+        if k & 0xfff == 0 {
+            BEAT.fetch_add(1, std::sync::atomic::Ordering::Relaxed);
+        }
+        let h = match (senders, k % 4) {
+            (true, 0) => H::S(s.clone()),
+            (true, 1) => H::AS(s.clone_async()),
+            (true, 2) => H::S(a_s.clone_sync()),
+            (true, _) => H::AS(a_s.clone()),
+            (false, 0) => H::R(r.clone()),
+            (false, 1) => H::AR(r.clone_async()),
+            (false, 2) => H::R(a_r.clone_sync()),
+            (false, _) => H::AR(a_r.clone()),
+        };
+        live.push(Some(h));
+        let alive = base + k as u64 + 1;
+        if near_pow2(alive as usize) || k + 1 == n {
+            stats.1 += 1;
+            let c = count(senders);
+            if c != alive {
+                return Err(format!("returned {} with {} live handles of that side", c, alive));
+            }
+            let other = count(!senders);
+            if other != 2 {
+                return Err(format!("the other side's count reads {} with 2 live handles", other));
+            }
+            if senders {
+                if r.is_disconnected() || r.is_closed() {
+                    return Err(format!("receiver reports disconnected/closed with {} live senders", alive));
+                }
+                if let Err(e) = r.try_recv() {
+                    return Err(format!("try_recv returned Err({:?}) with {} live senders", e, alive));
+                }
+            } else {
+                if s.is_disconnected() || s.is_closed() {
+                    return Err(format!("sender reports disconnected/closed with {} live receivers", alive));
+                }
+                match s.try_send(7) {
+                    Ok(true) => {
+                        let _ = r.try_recv();
+                    }
+                    o => return Err(format!("try_send returned {:?} with {} live receivers and an empty buffer", o, alive)),
+                }
+            }
+        }
+    }
+    stats.0 = stats.0.max(base + n as u64);
+    // drop in a scattered order (stride coprime to n), checking near powers of two
+    let mut stride = (n / 2) | 1;
+    while gcd(stride, n) != 1 {
+        stride += 2;
+    }
+    let mut pos = 0usize;
+    for k in 0..n {
+        if k & 0xfff == 0 {
+            BEAT.fetch_add(1, std::sync::atomic::Ordering::Relaxed);
+        }
+        pos = (pos + stride) % n;
+        if live[pos].take().is_none() {
+            return Err("harness: handle dropped twice".into());
+        }
+        let alive = base + (n - k - 1) as u64;
+        if near_pow2(alive as usize) || k + 1 == n {
+            stats.1 += 1;
+            let c = count(senders);
+            if c != alive {
+                return Err(format!("returned {} with {} live handles of that side (while dropping)", c, alive));
+            }
+        }
+    }
+    if senders { r.is_disconnected() } else { s.is_disconnected() }.then(|| ()).map_or(Ok(()), |_| Err("disconnected although two handles of the side are alive".to_string()))
+}
+
+fn gcd(a: usize, b: usize) -> usize {
+    if b == 0 {
+        a
+    } else {
+        gcd(b, a % b)
+    }
+}
+
 fn main() {
     let a = kverif::args();
     let seed = kverif::arg_u64(&a, "seed", 1);
@@ -1228,6 +1410,8 @@ fn main() {
     let maxlen = kverif::arg_u64(&a, "maxlen", 60) as usize;
     let stop_after = kverif::arg_u64(&a, "stop-after", 5);
     let casefile = a.get("casefile").cloned();
+    let bigcaps = kverif::arg_u64(&a, "bigcaps", 0) != 0;
+    let bigfill = kverif::arg_str(&a, "bigfill", "").to_string();
     let classes_arg = kverif::arg_str(&a, "classes", "P8,PB,L40,LS,S4,S1,Z0,ZA,L16,N8,N40,N4,A32").to_string();
     let classes: Vec<&str> = classes_arg.split(',').collect();
     let caps_arg = kverif::arg_str(&a, "caps", "0,1,2,u").to_string();
@@ -1355,6 +1539,7 @@ fn main() {
     // ---- random part ----------------------------------------------------------------
     let mut rng = Rng::new(seed ^ shard.wrapping_mul(0x1000_0001));
     let mut random_seqs = 0u64;
+    let mut big_seqs = 0u64;
     for n in 0..nrandom {
         if nviol >= stop_after {
             break;
@@ -1362,23 +1547,87 @@ fn main() {
         let class = classes[(rng.below(classes.len() as u64)) as usize];
         let cap = caps[rng.below(caps.len() as u64) as usize];
         let cap = if rng.chance(1, 8) { Some(*rng.pick(&[3usize, 4, 5, 6, 7, 16, 31, 32, 33, 34, 40, 64])) } else { cap };
+        // very large capacities: the buffer is allocated up front, so the size is limited per payload class inside go()
+        let cap = if bigcaps && rng.chance(1, 12) { Some(((1usize << (8 + rng.below(54))) as i128 + *rng.pick(&[-1i128, 0, 1, 5])) as usize) } else { cap };
         let actor = rng.chance(1, 2);
         let len = 10 + rng.below((maxlen.max(11) - 10) as u64) as usize;
         // choices are drawn large and reduced modulo the radix at replay time: pre-run to fix them
         let raw: Vec<usize> = (0..len).map(|_| rng.below(1 << 20) as usize).collect();
-        fn go<T: Payload>(cap: Option<usize>, actor: bool, raw: &[usize], st: &mut Stats, casefile: &Option<String>, keep: bool) -> (Outcome, Vec<usize>) {
+        fn go<T: Payload>(cap: Option<usize>, actor: bool, raw: &[usize], st: &mut Stats, casefile: &Option<String>, keep: bool) -> (Outcome, Vec<usize>, Option<usize>) {
+            let cap = clamp_cap::<T>(cap);
             write_case(casefile, &format!("rnd class={} cap={} actor={} modulo=1 choices={}", T::NAME, cap_name(cap), actor as u8, choices_str(raw)));
             let o = run_seq_m::<T>(cap, actor, raw, st, keep, true);
             let ch = o.resolved.clone();
-            (o, ch)
+            (o, ch, cap)
         }
-        let (o, ch) = with_class!(class, go(cap, actor, &raw, &mut st, &casefile, n % 499 == 3));
+        let (o, ch, cap) = with_class!(class, go(cap, actor, &raw, &mut st, &casefile, n % 499 == 3));
+        if cap.map_or(false, |c| c > 4096) {
+            big_seqs += 1;
+        }
         random_seqs += 1;
         if let Some(e) = &o.err {
             nviol += 1;
             report(class, cap, actor, &ch[..e.1.len().min(ch.len())], e, &mut out);
         }
     }
+
+    // ---- fill-to-the-brim part: large capacities -------------------------------------------
+    let mut fill_stats = (0u64, 0u64);
+    if !bigfill.is_empty() && nviol < stop_after {
+        let mut caps: Vec<usize> = vec![1000, 4097, 65_535, 65_536, 65_537, 100_001, (1 << 20) - 1, 1 << 20, (1 << 20) + 5, (1 << 21) + 1, (1 << 22) + 3];
+        if bigfill == "t" {
+            caps.extend_from_slice(&[(1 << 23) + 1, (1 << 24) + 9, (1 << 25) - 1]);
+        }
+        for (i, &cap) in caps.iter().enumerate() {
+            let r = if i % 2 == 0 { big_fill::<u64>(cap, i % 4 == 0, |k| k as u64 ^ 0x5a5a, &mut fill_stats) } else { big_fill::<()>(cap, i % 4 == 1, |_| (), &mut fill_stats) };
+            let r = r.and_then(|_| if cap <= (1 << 21) + 1 { big_fill::<[u8; 3]>(cap, i % 4 >= 2, |k| [k as u8, (k >> 8) as u8, (k >> 16) as u8], &mut fill_stats) } else { Ok(()) });
+            if let Err(e) = r {
+                nviol += 1;
+                let what = format!("TrySend/fill on bounded({}): {}", cap, e);
+                report("plain", Some(cap), false, &[], &(what, vec![format!("fill bounded({}) to the brim with try_send, probe, drain", cap)]), &mut out);
+                break;
+            }
+        }
+        // the configured capacity is reported back, whatever it is (no buffer is allocated for a zero-sized payload)
+        for k in 8..63u32 {
+            for d in [-1i128, 0, 3] {
+                let cap = ((1u128 << k) as i128 + d) as usize;
+                let (s, r) = kanal::bounded::<()>(cap);
+                let (s2, r2) = kanal::bounded_async::<()>(cap);
+                fill_stats.0 += 1;
+                let got = [s.capacity(), r.capacity(), s2.capacity(), r2.capacity()];
+                if got.iter().any(|g| *g != cap) || !s.is_bounded() || s.is_full() || !s.is_empty() {
+                    nviol += 1;
+                    let what = format!("bounded({}).capacity(): returned {:?}, is_bounded {}, is_full {}, reference {}", cap, got, s.is_bounded(), s.is_full(), cap);
+                    report("Z", Some(cap), false, &[], &(what, vec![]), &mut out);
+                    break;
+                }
+                match s.try_send(()) {
+                    Ok(true) => {}
+                    o => {
+                        nviol += 1;
+                        report("Z", Some(cap), false, &[], &(format!("TrySend(0): returned {:?} on an empty bounded({}), reference Ok(true)", o, cap), vec![]), &mut out);
+                    }
+                }
+            }
+        }
+    }
+    let mut handle_stats = (0u64, 0u64);
+    if !bigfill.is_empty() && nviol < stop_after {
+        let n = if bigfill == "t" { (1usize << 25) + 3 } else { (1usize << 21) + 3 };
+        for side in 0..2 {
+            if let Err(e) = many_handles(n, side == 0, &mut handle_stats) {
+                nviol += 1;
+                let what = format!("{} with up to {} live handles: {}", if side == 0 { "sender_count" } else { "receiver_count" }, n, e);
+                report("plain", None, false, &[], &(what, vec![format!("clone {} handles of one side in all flavours, read the counts, drop them in a scattered order", n)]), &mut out);
+            }
+        }
+    }
+    out.set("many_handles_peak", J::U(handle_stats.0));
+    out.set("many_handles_count_reads", J::U(handle_stats.1));
+    out.set("bigfill_channels", J::U(fill_stats.0));
+    out.set("bigfill_sends", J::U(fill_stats.1));
+    out.set("bigcap_sequences", J::U(big_seqs));
 
     let hits = kverif::fp::hits_delta(&hits0);
     out.set("engine", J::s("seqdiff"));
